@@ -49,6 +49,11 @@ def run(chk):
       for axis in itertools.permutations(range(len(sh)), k):
         for keep in (False, True):
           scan.append({'shape': sh, 'axis': list(axis), 'keepdims': keep, 'unroll': 1 if len(scan) % 3 else 2})
+          # the same axes written with negative indices (all, and a random subset)
+          neg = [a - len(sh) for a in axis]
+          scan.append({'shape': sh, 'axis': neg, 'keepdims': keep, 'unroll': 1})
+          if len(axis) >= 2:
+            scan.append({'shape': sh, 'axis': [a - len(sh) if rng.random() < 0.5 else a for a in axis], 'keepdims': keep, 'unroll': 1})
   reshape = [{'d': d, 'n': n} for d in (1, 2, 4) for n in (1, 3, 4)]
   W = 8
   payloads = [{'piter': piter[i::W], 'scan': scan[i::W]} for i in range(W)]
